@@ -205,6 +205,15 @@ func genC01(r *Rng) *Plan {
 		case 6:
 			p.Steps = append(p.Steps, Step{Op: "l2", Endpoint: r.Pick("validate", "profile", "refresh"), L2: []L2Answer{l2Answer(r.Pick(l2Kinds...))}})
 		}
+		if r.Chance(1, 12) {
+			// a sustained outage: the same unavailable answer for the next several checks, requests at landmark gaps
+			ep := r.Pick("validate", "profile", "refresh")
+			p.Steps = append(p.Steps, Step{Op: "l2", Endpoint: ep, Sticky: true, L2: []L2Answer{l2Answer(r.Pick("429", "503"))}})
+			for k, n := 0, r.Range(2, 5); k < n; k++ {
+				p.Steps = append(p.Steps, Step{Op: "get", B: r.Pick("b1", "b2"), Host: host, Target: r.Pick("/", "/private/x", "/oauth2/auth"), Dt: posDur(landmark(r, cfg))})
+			}
+			p.Steps = append(p.Steps, Step{Op: "l2", Sub: "clear"})
+		}
 		st := Step{Op: "get", B: b, Host: host, Target: paths[r.Intn(len(paths))], Method: r.Pick("GET", "GET", "GET", "POST", "OPTIONS", "HEAD", "DELETE"), Dt: gap}
 		if b == "attacker" && r.Chance(1, 2) {
 			st.NoJar = true
